@@ -9,6 +9,7 @@ interleaving (registration racing with completions, stale pre-check loads includ
 (`s.rmwOrder`).  Helper lemmas and the inductive invariants are in Proofs/When*.lean.
 -/
 import YaclibModel.Proofs.WhenSpec
+import YaclibModel.Proofs.WhenComposeProgress
 import YaclibModel.Extracted.Kernels
 import YaclibModel.Model.Skeletons
 
@@ -196,6 +197,57 @@ theorem validator_run (h : Reachable w s) (l : Label) (hn : (next w s l).isSome 
     Reachable w ((next w s l).get hn) := by
   have hx : next w s l = some ((next w s l).get hn) := by simp
   exact .step h (next_sound hx)
+
+/-! ### inputs as real unique cores (Model/WhenCompose.lean, see Props/C09.lean `input_interface_sound`): the WhenAny theorems
+hold in the composition of the When model with n instances of the C01 hand-off model, i.e. with every interleaving inside
+`SetCallback` / `Promise::Set` of every input -/
+
+section Composed
+variable {S : WhenU.State}
+
+/-- the When component of a reachable composed state is a reachable When state, its callback entries are the input
+    instances' continuation deliveries -/
+theorem any_input_interface_sound (hwf : w.wf) (h : WhenU.Reachable w S) :
+    Reachable w S.wh ∧ ∀ i, S.wh.consumed i = (S.u i).delivered.length :=
+  ⟨(WhenU.sim hwf h).1, (WhenU.sim hwf h).2.entries⟩
+
+theorem any_set_once_composed (hwf : w.wf) (ha : IsAny w) (h : WhenU.Reachable w S) :
+    S.wh.outSet.length ≤ 1 ∧ ∀ o, o ∈ S.wh.outSet → ∃ k, k < w.n ∧ o = .one (w.inp k) :=
+  any_set_once hwf ha (WhenU.sim hwf h).1
+
+theorem any_lastfail_spec_composed (hwf : w.wf) (hs : w.strat = .anyLF) (h : WhenU.Reachable w S) :
+    ∀ o, o ∈ S.wh.outSet → ∃ k, S.wh.win = some k ∧ k < w.n ∧ o = .one (w.inp k) ∧
+      (match S.wh.rmwOrder.find? (isVal w) with
+       | some v => k = v
+       | none => S.wh.rmwOrder.getLast? = some k ∧ ∀ j, j < w.n → ok (w.inp j) = false) :=
+  any_lastfail_spec hwf hs (WhenU.sim hwf h).1
+
+theorem later_completions_no_effect_composed (hwf : w.wf) (h : WhenU.Reachable w S) {l : WhenU.Label} {S' : WhenU.State}
+    (hs : WhenU.Step w S l S') {o : OutVal} (ho : S.wh.outSet = [o]) : S'.wh.outSet = [o] := by
+  have hW := (WhenU.sim hwf h).1
+  have hlen := (inv_reachable hwf (WhenU.sim hwf (.step h hs)).1).o.len
+  cases hs with
+  | «when» l wh' hl hst => exact later_completions_no_effect hwf hW hst ho
+  | prod i old u' hi hu => exact ho
+  | cload i x u' hr hu => exact ho
+  | casFail i u' hr hu => exact ho
+  | casOk i u' hr hu => simpa [doRegSet] using ho
+  | enterC i r u' hr hu => simpa [doRegSet] using ho
+  | enterP i r u' hi hu => simpa [doFire] using ho
+
+/-- at quiescence of the composed system: exactly one output, every input's callback entered and released exactly once -/
+theorem any_quiescent_complete_composed (hwf : w.wf) (hn : w.n ≠ 0) (h : WhenU.Reachable w S)
+    (hq : ∀ l S', ¬ WhenU.Step w S l S') :
+    S.wh.outSet.length = 1 ∧ ∀ i, i < w.n → S.wh.pc i = .done ∧ S.wh.released i = 1 ∧ (S.u i).delivered.length = 1 := by
+  obtain ⟨hW, hK⟩ := WhenU.sim hwf h
+  obtain ⟨hqw, _, _⟩ := WhenU.quiescent_parts hwf h hq
+  have hI := inv_reachable hwf hW
+  have hd := done_of_quiescent hI.c (invb_reachable hwf hW).not_crashed hqw
+  have hc := complete_of_all_done hI.c hI.o hn hd
+  refine ⟨hc.1, fun i hi => ⟨hd i hi, (hc.2 i hi).2, ?_⟩⟩
+  rw [← hK.entries i]; exact (hc.2 i hi).1
+
+end Composed
 
 /-! ### non-vacuity -/
 
